@@ -26,7 +26,7 @@ from ..selftest import Variant
 
 LEVEL = "other"
 META = {
-    "technique": "static analysis: static rule table (abstract interpretation of every rule constructor) vs configuration name lists; consumed-vs-emitted table agreement over constant configuration keys; writer/reader symmetry of get_configuration / configure_*",
+    "technique": "static analysis: static rule table (abstract interpretation of every rule constructor) vs configuration name lists; consumed-vs-emitted table agreement over constant configuration keys; writer/reader symmetry of get_configuration / configure_*; key-order independence of consumers of configuration mappings (no first-match exit) against the emitter's sorted keys",
     "level_text": "Decides table agreement for all rules and configurations: (a) each of the ~1000 rules' configurable names is a real instance attribute, so "
     "emission cannot fail and re-configuration accepts every emitted name; (b) the set of configuration sections the code reads equals the set "
     "-oc writes (modulo reasoned exemptions); (c) the emit/consume encodings of rule attributes and severities are symmetric. Equality of the "
